@@ -902,3 +902,36 @@ pub fn replay(_ctx: &CheckCtx, sub: &str, case: serde_json::Value) -> Result<Opt
         }
     }
 }
+
+// ------------------------------------------------------------------------------------------------
+// C02's cross-thread sub-check: the same schedule families, only the lost-wake-up rule (see histprops.rs)
+
+const C02_RULES: &[&str] = &["C04.stranded"];
+
+pub fn xthread_for_c02(ctx: &CheckCtx) -> Option<Found> {
+    use crate::props::histprops::xthread_relabel;
+    STEER_SYNC0.store(false, Ordering::SeqCst);
+    if let Some(f) = ctx.run_replays::<Case, _>("xthread.chan", |c| xthread_relabel(run_case(c), C02_RULES)) {
+        return Some(f);
+    }
+    if let Some(f) = ctx.run_replays::<FreeCase, _>("xthread.chan_free", |c| xthread_relabel(run_free(c), C02_RULES)) {
+        return Some(f);
+    }
+    STEER_SYNC0.store(ctx.known_open(SIG_SYNC0), Ordering::SeqCst);
+    let t = ctx.tier;
+    if let Some(f) = ctx.search("xthread.chan", case_strategy(), t.pick(4_000, 60_000), 6, None, |c| xthread_relabel(run_case(c), C02_RULES)) {
+        return Some(f);
+    }
+    ctx.search("xthread.chan_free", free_strategy(), t.pick(800, 20_000), 4, None, |c| xthread_relabel(run_free(c), C02_RULES))
+}
+
+pub fn xthread_replay(sub: &str, case: serde_json::Value) -> Result<Option<Violation>, String> {
+    use crate::props::histprops::xthread_relabel;
+    STEER_SYNC0.store(false, Ordering::SeqCst);
+    if sub == "xthread.chan_free" {
+        let c: FreeCase = serde_json::from_value(case).map_err(|e| e.to_string())?;
+        return Ok(xthread_relabel(run_free(&c), C02_RULES).1);
+    }
+    let c: Case = serde_json::from_value(case).map_err(|e| e.to_string())?;
+    Ok(xthread_relabel(run_case(&c), C02_RULES).1)
+}
